@@ -53,6 +53,11 @@ D3 = z3.Function('D3', *([z3.IntSort()] * 8), z3.IntSort())
 Y3 = z3.Function('Y3', *([z3.IntSort()] * 8), z3.IntSort())
 
 
+def _record_inv(it, inv):
+    if getattr(it, 'extra', None) is None: it.extra = {}
+    it.extra.setdefault('ss_invs', []).append(inv)
+
+
 def _amps(inv):
     inv = deref(inv)
     return [zint(x) for x in inv.fields]       # initial_amp, target_amp, current_ts, start_ramp_ts, stop_ramp_ts
@@ -60,6 +65,7 @@ def _amps(inv):
 
 def stub_compute_d(it, a, c):
     inv = _amps(a[0]); xs = [zint(deref(v).fields[0]) for v in a[1:4]]
+    _record_inv(it, inv)
     d = D3(*inv, *xs)
     it.ctx.pc += [d >= 0, d < 2**256]
     if it.ctx.branch(xs[0] + xs[1] + xs[2] == 0, 'd.zero'): return SOME(U256(0))
@@ -68,12 +74,54 @@ def stub_compute_d(it, a, c):
 
 def stub_compute_y_raw(it, a, c):
     inv = _amps(a[0]); x, ns, d = zint(deref(a[1]).fields[0]), zint(deref(a[2]).fields[0]), zint(deref(a[3]).fields[0])
+    _record_inv(it, inv)
     y = Y3(*inv[:3], inv[3] + inv[4] * 0, x, ns, d, inv[4])
     it.ctx.pc += [y >= 0, y < 2**256]
     return SOME(U256(y))
 
 
 KERNEL_STUBS = {SS + '::compute_d': stub_compute_d, SS + '::compute_y_raw': stub_compute_y_raw}
+
+
+def amp_at(cfg, h):
+    """the documented linear interpolation between the stored ramp end points (C04.amp.linear) at block height h"""
+    ia, fa, ib, fb = cfg['initial_amp'], cfg['future_amp'], cfg['initial_amp_block'], cfg['future_amp_block']
+    if h >= fb or fb <= ib or h < ib: return fa if h >= fb else ia
+    if fa >= ia: return ia + (fa - ia) * (h - ib) // (fb - ib)
+    return ia - (ia - fa) * (h - ib) // (fb - ib)
+
+
+def swap_differs_from_settled_twin(reals, scs):
+    """native confirmation of a curve-parameter counterexample (found with the Newton kernels abstracted): the real operation on the candidate state, whose
+    ramp is in progress, is compared with the SAME real operation on a twin state whose ramp is settled at the amplification in force at this block height
+    (initial = target = interpolated value). The two must emit the same messages; a difference shows on the real contract that the operation was not priced
+    with the amplification in force at the current block height."""
+    import copy
+    from engine import replay
+    real = reals[-1]['result']; sc = scs[-1]
+    if real.get('outcome') != 'ok': return False
+    sc2 = copy.deepcopy(sc)
+    for kv in sc2['storage']:
+        if bytes.fromhex(kv[0]).decode('latin1') == 'config':
+            cfg = kv[1]; a = amp_at(cfg, sc['env']['height'])
+            cfg['initial_amp'] = a; cfg['future_amp'] = a
+    twin = replay.run_scenarios([sc2])[0]['result']
+    if twin.get('outcome') != 'ok': return True
+    return twin['response']['messages'] != real['response']['messages']
+
+
+def curve_params_obligation(ck, p, tag, pid='C04'):
+    """every call of the (stubbed) Newton kernels on this path was made on a calculator built from the STORED ramp and the CURRENT BLOCK HEIGHT"""
+    st = p.extra['st']; want = [zint(x) for x in (st['amps'][0], st['amps'][1], z3.Int('height'), st['amps'][2], st['amps'][3])]
+    invs = p.extra.get('ss_invs', [])
+    if not invs: return
+    bad = z3.Or(*[w != g for inv in invs for w, g in zip(want, inv)])
+    # candidate for the native confirmation: a swap 20% into a ramp 10 -> 1000 on an unbalanced pool, at a block time far from the block height
+    nice = [z3.Int('b0') == 3 * 10 ** 12, z3.Int('b1') == 10 ** 12, z3.Int('b2') == 2 * 10 ** 12] + [z3.Int('f%d' % i) == 10 ** 6 for i in range(3)] + \
+           [z3.Int('offer') == 10 ** 11, z3.Int('initial_amp') == 10, z3.Int('future_amp') == 1000, z3.Int('initial_amp_block') == 1000, z3.Int('future_amp_block') == 21000, z3.Int('height') == 5000,
+            z3.Int('fee_protocol') == 10 ** 15, z3.Int('fee_swap') == 10 ** 15, z3.Int('fee_burn') == 0]
+    ck.oblige('%s.curve_at_height.%s' % (pid, tag), p, bad, 'the curve is evaluated with the stored ramp end points and the current block HEIGHT (the clock the ramp is defined on), in every kernel call of this operation',
+              native_pred=swap_differs_from_settled_twin, nice=nice)
 
 
 def trio_inv(c, st, attached=(0, 0, 0)):
